@@ -29,6 +29,17 @@ pub struct Blk {
     pub sz: usize,
     pub al: usize,
     pub generation: u32,
+    /// the byte pattern the harness wrote: pattern(pat.0, pat.1, pat.2 + offset)
+    pub pat: (u64, u32, usize),
+}
+
+impl Blk {
+    fn new(id: u64, addr: usize, sz: usize, al: usize, generation: u32) -> Blk {
+        Blk { addr, sz, al, generation, pat: (id, generation, 0) }
+    }
+    fn byte(&self, off: usize) -> u8 {
+        pattern(self.pat.0, self.pat.1, self.pat.2 + off)
+    }
 }
 
 #[derive(Clone, Debug, Default)]
@@ -150,7 +161,7 @@ impl<'b> Ctx<'b> {
                 continue;
             }
             let mem = unsafe { std::slice::from_raw_parts(r.real(blk.addr), blk.sz) };
-            if mem.iter().enumerate().any(|(off, &x)| x != pattern(*id, blk.generation, off))
+            if mem.iter().enumerate().any(|(off, &x)| x != blk.byte(off))
                 && self.reported.insert((*id, blk.generation))
             {
                 damaged.push(*id);
@@ -161,7 +172,7 @@ impl<'b> Ctx<'b> {
             if let Some(blk) = self.blocks.get(&id) {
                 let mem = unsafe { std::slice::from_raw_parts_mut(r.real(blk.addr), blk.sz) };
                 for (off, x) in mem.iter_mut().enumerate() {
-                    *x = pattern(id, blk.generation, off);
+                    *x = blk.byte(off);
                 }
                 r.note_harness_write(blk.addr, blk.sz);
             }
@@ -270,7 +281,7 @@ pub fn exec(sc: &mut dyn ScopeOps, ctx: &mut Ctx<'_>) -> Flow {
                             o.insert("zero_ok".into(), json!(mem.iter().all(|&x| x == 0)));
                         }
                         if id != 0 {
-                            ctx.blocks.insert(id, Blk { addr, sz: l.size(), al: l.align(), generation: 0 });
+                            ctx.blocks.insert(id, Blk::new(id, addr, l.size(), l.align(), 0));
                             o.insert("_fresh".into(), json!(id));
                         }
                         if let (Some(of), Some((fid, faddr))) = (args.get("of").and_then(|x| x.as_u64()), ctx.last_freed) {
@@ -330,12 +341,12 @@ pub fn exec(sc: &mut dyn ScopeOps, ctx: &mut Ctx<'_>) -> Flow {
                             // surviving prefix = old contents; zeroed tail
                             let keep = old.size().min(new.size());
                             let mem = unsafe { std::slice::from_raw_parts(region().real(addr), new.size()) };
-                            let prefix_ok = (0..keep).all(|off| mem[off] == pattern(id, blk.generation, off));
+                            let prefix_ok = (0..keep).all(|off| mem[off] == blk.byte(off));
                             o.insert("prefix_ok".into(), json!(prefix_ok));
                             if zeroed {
                                 o.insert("zero_ok".into(), json!(mem[keep..].iter().all(|&x| x == 0)));
                             }
-                            ctx.blocks.insert(id, Blk { addr, sz: new.size(), al: new.align(), generation: blk.generation + 1 });
+                            ctx.blocks.insert(id, Blk::new(id, addr, new.size(), new.align(), blk.generation + 1));
                             o.insert("_fresh".into(), json!(id));
                         }
                         Ok(Err(())) => {
@@ -500,6 +511,25 @@ pub fn exec(sc: &mut dyn ScopeOps, ctx: &mut Ctx<'_>) -> Flow {
             }
             "guard_reset" => return Flow::GuardReset,
             "reset" | "reset_to_start" | "drop" => return Flow::BumpOp,
+            "split" => {
+                ctx.pc += 1;
+                let id = u(&args, "id") as u64;
+                let nid = u(&args, "nid") as u64;
+                let at = u(&args, "at");
+                let mut o = Ctx::obs("ok");
+                if let Some(bk) = ctx.blocks.get(&id).cloned() {
+                    // pure bookkeeping: from now on the two halves are separate allocations
+                    ctx.blocks.insert(id, Blk { addr: bk.addr, sz: at, al: bk.al, generation: bk.generation, pat: bk.pat });
+                    ctx.blocks.insert(
+                        nid,
+                        Blk { addr: bk.addr + at, sz: bk.sz - at, al: bk.al, generation: bk.generation, pat: (bk.pat.0, bk.pat.1, bk.pat.2 + at) },
+                    );
+                    o.insert("addr".into(), json!(bk.addr + at));
+                } else {
+                    o = Ctx::obs("skipped");
+                }
+                ctx.record(i, Some(sc), o);
+            }
             "alloc_huge" => {
                 ctx.pc += 1;
                 let al = u(&args, "al");
@@ -582,7 +612,7 @@ pub fn exec(sc: &mut dyn ScopeOps, ctx: &mut Ctx<'_>) -> Flow {
                         if let (Some(bk), Some(addr)) = (blk.as_ref(), o.get("addr").and_then(|x| x.as_u64())) {
                             o.insert("oaddr".into(), json!(bk.addr));
                             if addr as usize == bk.addr {
-                                ctx.blocks.insert(id, Blk { addr: bk.addr, sz: new.size(), al: new.align(), generation: bk.generation });
+                                ctx.blocks.insert(id, Blk { addr: bk.addr, sz: new.size(), al: new.align(), generation: bk.generation, pat: bk.pat });
                             }
                         }
                     }
@@ -787,7 +817,7 @@ fn run_prep(sc: &mut dyn ScopeOps, ctx: &mut Ctx<'_>) {
                             o.insert("content_ok".into(), json!(bytes == expect && len == pushed.len()));
                             let id = u(&jargs, "id") as u64;
                             if id != 0 {
-                                ctx.blocks.insert(id, Blk { addr, sz: len * esz, al: eal, generation: 0 });
+                                ctx.blocks.insert(id, Blk::new(id, addr, len * esz, eal, 0));
                                 o.insert("_fresh".into(), json!(id));
                             }
                             o
